@@ -50,6 +50,15 @@ func (m Map) FriendlyName() string {
 	return m.Name
 }
 
+func (m Map) Validate() error {
+	if c, ok := m.Elem.(Validatable); ok {
+		if err := c.Validate(); err != nil {
+			return fmt.Errorf("Elem: %T: %w", m.Elem, err)
+		}
+	}
+	return nil
+}
+
 func (m Map) Copy() Constraint {
 	var elem Constraint
 	if m.Elem != nil {
